@@ -86,6 +86,12 @@ def _from_tensor_job() -> Record:
             return None
         data, t = p.value
         _check_metrics(ctx, p.interp, tag, data, t)
+        # "the TRUE statistics": values are reals in this model (A1), so precision is stated separately --
+        # the tensor is not converted to a narrower dtype before the reductions (float64 modules, tiny / huge values)
+        from pyvc.torchmodel import narrowing
+
+        convs = ctx.__dict__.get("dtype_conversions", [])
+        ctx.oblige(f"{tag}:statistics_taken_without_a_narrowing_dtype_conversion", z3.Not(z3.Or(*[narrowing(a, b) for a, b in convs])) if convs else True, conversions=len(convs))
         frame_obligations(ctx, f"{tag}:tensor_not_modified")
         return None
 
